@@ -3,6 +3,7 @@ package c04
 import (
 	"fmt"
 	"io"
+	"os"
 	"regexp"
 	"strconv"
 	"strings"
@@ -213,14 +214,34 @@ func enumerateB(tier string, emit func(string)) {
 var caseCounter int64
 
 type valueCtx struct {
-	sym string // unique symbol of this case
-	pkg string // name of the scratch package of this case
+	sym     string // unique symbol of this case
+	pkg     string // name of the scratch package of this case
+	listLen int    // 3 (default), 2 or 1: length of every list-typed argument (re-check of in-range arity errors)
+}
+
+func (vc *valueCtx) list(evaluated bool) string {
+	switch {
+	case vc.listLen == 2 && evaluated:
+		return "(list 1 2)"
+	case vc.listLen == 2:
+		return "(" + vc.sym + "v 7)"
+	case vc.listLen == 1 && evaluated:
+		return "(list 1)"
+	case vc.listLen == 1:
+		return "(" + vc.sym + "v)"
+	case evaluated:
+		return "(list 1 2 3)"
+	}
+	return "(1 2 3)"
 }
 
 // valueFor returns a Lisp expression for an argument of the documented type; quoted tells whether the
 // argument position is evaluated (true: build the value with an expression) or taken literally.
 func valueFor(typ string, evaluated bool, vc *valueCtx) string {
 	t := strings.ToLower(strings.TrimSpace(typ))
+	if strings.HasPrefix(t, "symbol|lambda") || t == "symbol|function" {
+		t = "function"
+	}
 	if i := strings.IndexAny(t, "|"); 0 < i {
 		t = strings.TrimSpace(t[:i])
 	}
@@ -238,14 +259,14 @@ func valueFor(typ string, evaluated bool, vc *valueCtx) string {
 	case "string", "pathname", "filepath":
 		return `"/verif/.build/scratch/C04/none/zz"`
 	case "list", "cons", "sequence", "sequemce", "list of strings", "list of packages", "lambda-list", "list placer":
-		return q("(list 1 2 3)", "(1 2 3)")
+		return vc.list(evaluated)
 	case "association list":
 		return q("(list (cons 1 2))", "((1 . 2))")
 	case "property list":
 		return q("(list 'a 1)", "(a 1)")
 	case "symbol", "function-name", "symbol or list":
 		return q("'"+vc.sym, vc.sym)
-	case "function", "function-designator", "lambda":
+	case "function", "function-designator", "lambda", "symbol|lambda", "symbol|function", "symbol|lambda|channel":
 		return q("'list", "list")
 	case "boolean", "t":
 		return "t"
@@ -323,6 +344,7 @@ func quietStreams() {
 		slip.StandardOutput = &slip.OutputStream{Writer: io.Discard}
 		slip.ErrorOutput = &slip.OutputStream{Writer: io.Discard}
 		slip.TraceOutput = &slip.OutputStream{Writer: io.Discard}
+		slip.StandardInput = slip.NewInputStream(strings.NewReader(""))
 	})
 }
 
@@ -376,6 +398,7 @@ func execB(spec string) (res engine.Result) {
 	for _, u := range slip.UserPkg.Uses {
 		scratch.Use(u)
 	}
+	scratch.Use(&slip.UserPkg) // condition classes are registered there
 	saved := slip.CurrentPackage
 	slip.CurrentPackage = scratch
 	defer func() {
@@ -393,37 +416,41 @@ func execB(spec string) (res engine.Result) {
 
 	// build the call
 	skip := skipper(fn.fi)
-	var args []string
-	for i := 0; i < n; i++ {
-		ev := !skip(i)
-		switch {
-		case inert:
-			args = append(args, "0")
-		case i < len(r.pos):
-			args = append(args, valueFor(r.pos[i].Type, ev, vc))
-		case r.rest && r.restArg != nil:
-			args = append(args, valueFor(r.restArg.Type, ev, vc))
-		case 0 < len(r.keys) && in:
-			j := i - len(r.pos)
-			ka := r.keys[j/2]
-			if j%2 == 0 {
-				args = append(args, ":"+strings.TrimPrefix(ka.Name, ":"))
-			} else {
-				args = append(args, valueFor(ka.Type, ev, vc))
+	build := func() string {
+		var args []string
+		for i := 0; i < n; i++ {
+			ev := !skip(i)
+			switch {
+			case inert:
+				args = append(args, "0")
+			case i < len(r.pos):
+				args = append(args, valueFor(r.pos[i].Type, ev, vc))
+			case r.rest && r.restArg != nil:
+				args = append(args, valueFor(r.restArg.Type, ev, vc))
+			case 0 < len(r.keys) && in:
+				j := i - len(r.pos)
+				ka := r.keys[j/2]
+				if j%2 == 0 {
+					args = append(args, ":"+strings.TrimPrefix(ka.Name, ":"))
+				} else {
+					args = append(args, valueFor(ka.Type, ev, vc))
+				}
+			default:
+				args = append(args, "7")
 			}
-		default:
-			args = append(args, "7")
 		}
+		sep := ":"
+		if !fn.fi.Export {
+			sep = "::"
+		}
+		src := "(" + fn.pkg + sep + fn.name
+		if 0 < len(args) {
+			src += " " + strings.Join(args, " ")
+		}
+		return src + ")"
 	}
-	sep := ":"
-	if !fn.fi.Export {
-		sep = "::"
-	}
-	src := "(" + fn.pkg + sep + fn.name
-	if 0 < len(args) {
-		src += " " + strings.Join(args, " ")
-	}
-	src += ")"
+	vc.listLen = 3
+	src := build()
 
 	val, err := lisp.EvalIn(scope, src)
 
@@ -440,12 +467,35 @@ func execB(spec string) (res engine.Result) {
 		class = "error:" + err.Class
 	}
 	res.Outcome = class
+	if debugB {
+		res.Outcome = class + " <= " + src + " => " + fmt.Sprint(err)
+	}
 	doc := docText(fn.fi.Doc)
 	got := func() string {
 		if err != nil {
 			return "error " + err.String()
 		}
-		return "value " + lisp.Show(val)
+		v := lisp.Show(val)
+		if 120 < len(v) {
+			v = v[:120] + "..."
+		}
+		return "value " + v
+	}
+	// an in-range arity error is blamed on the call's argument count only if it persists whatever the
+	// length of the list-valued arguments is
+	arityPersists := func() bool {
+		for _, l := range []int{2, 1} {
+			vc.listLen = l
+			alt := build()
+			if alt == src {
+				continue
+			}
+			_, aerr := lisp.EvalIn(scope, alt)
+			if aerr == nil || !arityRe.MatchString(aerr.Message) {
+				return false
+			}
+		}
+		return true
 	}
 	mentionsSelf := err != nil && strings.Contains(strings.ToLower(err.Message), strings.ToLower(fn.name))
 	switch {
@@ -458,6 +508,9 @@ func execB(spec string) (res engine.Result) {
 			res.Hit("B:in-range-optional-supplied")
 		}
 		switch {
+		case class == "arity-error" && mentionsSelf && !arityPersists():
+			// the complaint was about the length of a list-valued argument (e.g. the (var value) list of a with- macro), not about the call
+			res.Hit("B:in-range-arity-error-about-a-list-argument")
 		case class == "arity-error" && mentionsSelf:
 			res.Fail(fmt.Sprintf("B fn=%s n=%d kind=documented-count-rejected", id, n),
 				fmt.Sprintf("%s => %s; documented lambda list %s allows %d argument(s)", src, got(), doc, n))
@@ -493,6 +546,8 @@ func execB(spec string) (res engine.Result) {
 	}
 	return
 }
+
+var debugB = os.Getenv("C04_DEBUG") != "" // dev aid: show the call and the raw error in the outcome
 
 var indexFaultRe = regexp.MustCompile(`index out of range \[(\d+)\] with length (\d+)`)
 
